@@ -53,6 +53,9 @@ def _replay_specific(req):
         r2 = rollback_cases(req)
         r2['evaluations'] = r2.get('evaluations', 0) + r.get('evaluations', 0)
         return r2
+    if func.split('#')[0] in ('cache.Cache.use_cached_operation', 'cache.Cache._assert_no_repeats',
+                              'cache.Cache._use_cached_operation'):
+        return reuse_registration_cases(req)
     if func.split('#')[0] in ('file_builder.FileBuilder._apply_cached_suboperations',
                               'file_builder.FileBuilder._unapply_cached_suboperations'):
         return failed_reuse_case(req)
@@ -641,6 +644,118 @@ def aliasing_cases(req):
                         'receives behave like the non-mutating twin'}
     finally:
         shutil.rmtree(root, ignore_errors=True)
+
+
+# -------------------------------------------------------------------------------------------------
+def reuse_registration_cases(req):
+    """C08/C01, Cache.use_cached_operation on the real class (round 4): every tree of <= 4 complex
+    records (build-file / subbuild, each raised or not, set-up failed or not) with simple
+    operations interleaved, in a fresh mutable cache and in caches where one key of the tree is
+    already claimed or finished.  Expected: a taken key => RuntimeError and the cache is exactly as
+    before; otherwise every non-setup-failed record is registered (also raised ones) and nothing
+    else changes"""
+    import itertools
+    from file_builder.cache import Cache
+    from file_builder.operation import BuildFileOperation, SubbuildOperation, SimpleOperation
+    from file_builder.file_comparison import FileComparison
+    n = 0
+
+    def simple():
+        return SimpleOperation('is_file', ['/x/q'], False, None, True)
+
+    def mk(shape, flags, counter):
+        """shape: nested tuples ('b'|'s', children...)"""
+        kind, kids = shape[0], shape[1:]
+        i = counter[0]
+        counter[0] += 1
+        raised, sf = flags[i]
+        subs = []
+        for j, k in enumerate(kids):
+            subs.append(simple())                 # a simple operation before every child
+            subs.append(mk(k, flags, counter))
+        subs.append(simple())
+        if kind == 'b':
+            return BuildFileOperation('/x/f%d' % i, FileComparison.METADATA, 'fn', [i], {}, subs,
+                                      None, 'r', raised, sf, True)
+        return SubbuildOperation('sb', [i], {}, subs, None, raised, sf, True)
+
+    def walk(op, out):
+        if isinstance(op, (BuildFileOperation, SubbuildOperation)):
+            out.append(op)
+            for s_ in op.suboperations:
+                walk(s_, out)
+        return out
+
+    def state(c):
+        return (dict(c._files), dict(c._norm_cased_files), dict(c._subbuilds))
+
+    shapes = [('s',), ('b',), ('s', ('b',)), ('b', ('b',)), ('s', ('b',), ('b',)),
+              ('s', ('s', ('b',))), ('s', ('b', ('s',))), ('b', ('s', ('b',)), ('b',)),
+              ('s', ('b',), ('s', ('b',)))]
+
+    def size(sh):
+        return 1 + sum(size(k) for k in sh[1:])
+    for sh in shapes:
+        m = size(sh)
+        for flags in itertools.product([(False, False), (True, False), (True, True)], repeat=m):
+            tree = mk(sh, flags, [0])
+            recs = walk(tree, [])
+            live = [r for r in recs if not r.setup_failed]
+            for taken in [None] + live:
+                for how in ('claimed', 'finished'):
+                    if taken is None and how == 'finished':
+                        continue
+                    n += 1
+                    c = Cache.create_empty_mutable('n', {})
+                    if taken is not None:
+                        if isinstance(taken, BuildFileOperation):
+                            c.start_building_file(taken.filename)
+                            if how == 'finished':
+                                c.finish_building_file(BuildFileOperation(
+                                    taken.filename, FileComparison.METADATA, 'other', [], {}, [],
+                                    None, 'r', False, False, True))
+                        else:
+                            key = Cache.subbuild_key(taken)
+                            c.start_subbuild(key, taken)
+                            if how == 'finished':
+                                c.finish_subbuild(key, SubbuildOperation(
+                                    'sb', taken.args, {}, [], 7, False, False, True))
+                    before = state(c)
+                    try:
+                        c.use_cached_operation(tree)
+                        err = None
+                    except RuntimeError as e:
+                        err = e
+                    desc = 'use_cached_operation(tree %r flags %r) with %s %s' % (
+                        sh, flags, 'nothing taken' if taken is None else
+                        ('%s key of record #%d' % (how, recs.index(taken))), '')
+                    if taken is not None:
+                        if err is None or state(c) != before:
+                            return {'reproduced': True, 'input': desc, 'evaluations': n,
+                                    'check': 'a key of the reused subtree was already taken: '
+                                             'RuntimeError and the cache unchanged',
+                                    'observed': {'raised': repr(err),
+                                                 'cache_changed': state(c) != before}}
+                        continue
+                    missing = []
+                    for r in live:
+                        if isinstance(r, BuildFileOperation):
+                            ok = c.has_norm_cased_file(r.filename) and c.get_file(r.filename) is r
+                        else:
+                            ok = c.get_subbuild(Cache.subbuild_key(r)) is r
+                        if not ok:
+                            missing.append(recs.index(r))
+                    extra = (len(c._files) != len([r for r in live
+                                                   if isinstance(r, BuildFileOperation)])
+                             or len(c._subbuilds) != len([r for r in live if isinstance(
+                                 r, SubbuildOperation)]))
+                    if err is not None or missing or extra:
+                        return {'reproduced': True, 'input': desc, 'evaluations': n,
+                                'check': 'every non-setup-failed record of the reused subtree is '
+                                         'registered, nothing else',
+                                'observed': {'raised': repr(err), 'records_not_registered': missing,
+                                             'other_entries': extra}}
+    return {'reproduced': False, 'evaluations': n}
 
 
 # -------------------------------------------------------------------------------------------------
@@ -2231,7 +2346,7 @@ def property_templates(pid):
         'C05': [effectiveness_cases, failed_reuse_case, version_cases],
         'C06': [version_cases],
         'C07': [identity_cases],
-        'C08': [fence_cases, refusal_cases],    # race_cases: known finding, run on demand only
+        'C08': [fence_cases, refusal_cases, reuse_registration_cases],    # race_cases: known finding, run on demand only
         'C10': [failed_setup_cases, failed_reuse_case, identity_cases],
         'C11': [aliasing_cases],
         'C12': [clean_cases],
